@@ -133,12 +133,23 @@ class UnitBuild:
             cn = ctx.fn_cname(t)
             ctx.fn_mode[cn] = sel.get('mode', ctx.call_mode(t))
             ctx.fn_queue.append(t)
+        # '@re:<regex>' keys name a callee by pattern (long template-argument suffixes)
+        pend = [k for k in cfg.get('contracts', {}) if k.startswith('@re:')]
+        if pend:
+            cfg = self.cfg = dict(cfg, contracts=dict(cfg['contracts']))
+            ctx.cfg = cfg
+            self._pending_re = {k[4:]: cfg['contracts'].pop(k) for k in pend}
         if '@target' in cfg.get('contracts', {}):
             # the spec may key the target's contract by '@target' (overload suffixes depend on what the witness instantiates)
             cfg = self.cfg = dict(cfg, contracts=dict(cfg['contracts']))
             cfg['contracts'][cname] = cfg['contracts'].pop('@target')
             ctx.cfg = cfg
         ctx.lower_all()
+        for pat, cc in getattr(self, '_pending_re', {}).items():
+            hits = [n for n in ctx.fn_decls if re.search(pat, n)]
+            if len(hits) != 1:
+                raise Unsupported('contract pattern %s matches %d lowered functions' % (pat, len(hits)))
+            self.cfg['contracts'][hits[0]] = cc
         # constants the contracts mention although the lowered bodies do not
         for spec in cfg.get('need_consts', []):
             alias, name = spec.split('.')
@@ -303,7 +314,9 @@ class UnitBuild:
                     stm[cn] = '{ %s __v; __CPROVER_assume(__v >= %s && __v <= %s); %s = __v; }' % (info['ctype'], lo, hi, cn)
                     deps[cn] = set()
                     if info.get('concrete') is not None and not (lo <= info['concrete'] <= hi):
-                        raise Unsupported('witness value %s of %s outside the declared range' % (info['concrete'], cn))
+                        if not cfg.get('bounded'):
+                            raise Unsupported('witness value %s of %s outside the declared range' % (info['concrete'], cn))
+                        self.notes.append('bounded unit: %s restricted to %s..%s (the witness instantiates %s)' % (cn, lo, hi, info['concrete']))
                 elif b[0] == 'expr':
                     stm[cn] = '%s = (%s)(%s);' % (cn, info['ctype'], b[1])
                     deps[cn] = _ids(b[1]) & set(ctx.const_order)
@@ -457,7 +470,9 @@ def verify(cfile, workdir, cfg, target_cname, build):
         if fn == target_cname:
             # DFCC renames the function under verification
             cmd += ['--unwindset', '%s_wrapped_for_contract_checking.%s:%d' % (fn, idx, v)]
-    if cfg.get('unwindset'):
+    for k, v in (cfg.get('unwind_target_loops') or {}).items():
+        cmd += ['--unwindset', '%s_wrapped_for_contract_checking.%s:%d' % (target_cname, k, v)]
+    if cfg.get('unwindset') or cfg.get('unwind_target_loops'):
         cmd += ['--unwinding-assertions']
     if cfg.get('object_bits'):
         cmd += ['--object-bits', str(cfg['object_bits'])]
